@@ -351,6 +351,7 @@ pub fn baseline(seed: u64, opts: &GenOpts) -> (SupplyTrace, Plan) {
         labels: vec![],
         work_files: vec![],
         caller_json_alias: vec![],
+        step_name: None,
     };
     (t, Plan { owners, funcs, outsiders, now: now.min(exp) })
 }
